@@ -104,7 +104,8 @@ def basic_render(
             line += f"{node}, "
 
         # remove trailing comma & space
-        line = line[:-2]
+        if nbs:
+            line = line[:-2]
         lines.append(line)
 
     return "\n".join(lines)
